@@ -318,6 +318,9 @@ class Evaluator:
             return vars(type(base))[n.attr]  # class-level data attribute of a sample-domain class
         raise Unfoldable(f"attribute read {ast.unparse(n)}")
 
+    def _Slice(self, n):
+        return slice(self.ev(n.lower) if n.lower else None, self.ev(n.upper) if n.upper else None, self.ev(n.step) if n.step else None)
+
     def _Subscript(self, n):
         base = self.ev(n.value)
         if isinstance(n.slice, ast.Slice):
@@ -745,7 +748,13 @@ class Evaluator:
                 if isinstance(t, ast.Subscript):
                     base = self.ev(t.value)
                     try:
-                        del base[self.ev(t.slice)]
+                        if isinstance(t.slice, ast.Slice):
+                            lo = self.ev(t.slice.lower) if t.slice.lower else None
+                            hi = self.ev(t.slice.upper) if t.slice.upper else None
+                            stp = self.ev(t.slice.step) if t.slice.step else None
+                            del base[lo:hi:stp]
+                        else:
+                            del base[self.ev(t.slice)]
                     except (KeyError, IndexError, TypeError) as e:
                         raise Raised(type(e).__name__)
                 elif isinstance(t, ast.Name):
